@@ -359,6 +359,8 @@ class Blank(ExcelType):
         return isinstance(value, (cls,) + cls.native_types) or value == ''
 
     def _sort_key(self, other):
+        if isinstance(other, Blank):
+            return (0, 0)
         return other.__Blank__()._sort_key(self)
 
     def __and__(self, other):
